@@ -543,6 +543,10 @@ def mk_proj(base, i: int):
     # Diff.tree_primal / tree_tangent / no_change / unknown_change are tree maps: projections commute with them
     if is_t(base, "call") and is_t(base[1], "attr") and base[1][2] in _TREE_TAGS and is_t(base[1][1], "global") and base[1][1][1].split(".")[-1] == "Diff" and len(base[2]) == 1 and not base[3]:
         return mk_call(base[1], (mk_proj(base[2][0], i),), ())
+    if is_t(base, "treemap") and len(base[2]) == 1 and is_t(base[2][0], "tuple") and not _has_star(base[2][0]) and 0 <= i < len(base[2][0][1]):
+        # tree_map(f, (a, b))[0] is tree_map(f, a): a map over a literal tuple of trees maps each of them
+        ti = base[2][0][1][i]
+        return ("treemap", subst(base[1], ("leaf", base[2][0]), ("leaf", ti)), (ti,))
     if is_t(base, "treemap"):
         return ("treemap", mk_proj(base[1], i), base[2])
     if is_t(base, "leaf"):
